@@ -466,7 +466,7 @@ pub fn eval(job: &Job) -> JobResult {
     let mut model_calls = 0u64;
 
     // one model call per batch; every batch must take exactly one iteration
-    let mut run_batch = |batch: Vec<Vec<SOp>>| {
+    let mut run_chunk = |batch: Vec<Vec<SOp>>| {
         let vals = vals.clone();
         let mm = mismatches.clone();
         let cc = counts.clone();
@@ -492,6 +492,24 @@ pub fn eval(job: &Job) -> JobResult {
         });
     };
 
+    // loom's vector clocks are u16 and every operation advances one: keep a model call well
+    // below 65k operations
+    let mut run_batch = |batch: Vec<Vec<SOp>>| {
+        let mut cur = vec![];
+        let mut ops = 0usize;
+        for s in batch {
+            ops += s.len() + 2;
+            cur.push(s);
+            if ops > 20_000 {
+                run_chunk(std::mem::take(&mut cur));
+                ops = 0;
+            }
+        }
+        if !cur.is_empty() {
+            run_chunk(cur);
+        }
+    };
+
     // depth 1 with every ordering combination
     let mut d1: Vec<Vec<SOp>> = vec![];
     for &op in &alpha {
@@ -514,6 +532,37 @@ pub fn eval(job: &Job) -> JobResult {
             }
             run_batch(batch);
         }
+    }
+    // long sequences: n modifications (the store history is a ring of 7) followed by every
+    // one- and two-op suffix that inspects the value
+    {
+        let nv = vals.len();
+        let mut batch = vec![];
+        let inspect: Vec<SOp> = alpha.iter().cloned().filter(|o| matches!(o, SOp::Load(_) | SOp::Unsync | SOp::WithMut(_) | SOp::Swap(_, _) | SOp::FupdNone(_, _) | SOp::Cx(_, _, _, _) | SOp::Fadd(_, _) | SOp::Fxor(_, _))).collect();
+        let long_max = if depth >= 3 { 17 } else { 15 };
+        for n in 4..=long_max {
+            for variant in 0..3 {
+                let prefix: Vec<SOp> = (0..n)
+                    .map(|i| match variant {
+                        0 => SOp::Store((i + 1) % nv, SeqCst),
+                        1 => SOp::Swap((i + 2) % nv, SeqCst),
+                        _ => SOp::FupdSome((i % (nv - 1)) + 1, SeqCst, SeqCst),
+                    })
+                    .collect();
+                batch.push(prefix.clone());
+                for &a in &inspect {
+                    let mut s1 = prefix.clone();
+                    s1.push(a);
+                    batch.push(s1.clone());
+                    for &b in &[SOp::Load(SeqCst), SOp::Unsync] {
+                        let mut s2 = s1.clone();
+                        s2.push(b);
+                        batch.push(s2);
+                    }
+                }
+            }
+        }
+        run_batch(batch);
     }
     let c = counts.lock().unwrap();
     res.states = c.0.max(1);
